@@ -555,12 +555,66 @@ def _children_by_clone(facts, b, arg):
     elems = vec_literal_elems(arg)
     if elems is not None:
         bad = []
-        for e in elems:
+        unknown = []
+        env_ = {}
+        for x in walk(facts.root(b)):
+            if x.get("k") == "Block":
+                for st in x["stmts"]:
+                    if st["s"] == "let" and st["pat"].get("k") == "Binding" and st.get("init") is not None:
+                        env_[st["pat"]["v"]] = st["init"]
+        CTOR_ = "<%s as core::convert::From<" % ARRAY
+
+        def clone_or_fresh(e, depth=0):
+            """True: a clone of an existing handle or a freshly constructed constant; False: something else; None: not read"""
             e = strip(e)
-            if not (e.get("k") == "Call" and resolved(e) == ARRAY_CLONE):
-                bad.append(show(e)[:100])
+            if not isinstance(e, dict) or depth > 6:
+                return None
+            if e.get("k") == "Call" and resolved(e) == ARRAY_CLONE:
+                return True
+            if e.get("k") == "Call" and (resolved(e) or "").startswith(CTOR_):
+                # a new array built here from constants: a fresh leaf, not an operand whose identity matters; built from an
+                # existing array's fields it is a rebuilt copy of an operand (fresh slots: the operand never sees its gradient)
+                uses_array = any((x.get("k") == "Field" and x.get("adt") == ARRAY) or
+                                 (x.get("k") in ("VarRef", "UpvarRef") and ARRAY in (x.get("ty") or "")) for x in walk(e))
+                return False if uses_array else True
+            if e.get("k") == "VarRef" and e["v"] in env_:
+                return clone_or_fresh(env_[e["v"]], depth + 1)
+            if e.get("k") == "Call":
+                cn = callee(e) or ""
+                if cn in ("core::option::Option::<&T>::cloned",):
+                    return True
+                if cn in ("core::option::Option::<T>::unwrap_or_else", "core::option::Option::<T>::unwrap_or") and len(e["args"]) == 2:
+                    a = clone_or_fresh(e["args"][0], depth + 1)
+                    d = strip(e["args"][1])
+                    if d.get("k") == "Closure":
+                        cb = facts.body(d["closure"])
+                        croot = strip(facts.root(cb)) if cb is not None else None
+                        while isinstance(croot, dict) and croot.get("k") == "Block" and not croot["stmts"] and croot.get("e") is not None:
+                            croot = strip(croot["e"])
+                        dflt = clone_or_fresh(croot, depth + 1) if croot is not None else None
+                    else:
+                        dflt = clone_or_fresh(d, depth + 1)
+                    if a is True and dflt is True:
+                        return True
+                    return None
+                if cn in ("core::option::Option::<T>::unwrap", "core::option::Option::<T>::expect") and e["args"]:
+                    return clone_or_fresh(e["args"][0], depth + 1)
+                return None
+            if e.get("k") in ("VarRef", "UpvarRef", "Field", "Deref", "Index"):
+                return False        # the handle itself is moved in (or copied out of a place): not a clone
+            return None
+        for e in elems:
+            v_ = clone_or_fresh(e)
+            if v_ is None and strip(e).get("k") == "Call" and (resolved(strip(e)) or "") in ("corgi::array::Array::tracked", "corgi::array::Array::untracked") and strip(e)["args"]:
+                v_ = clone_or_fresh(strip(e)["args"][0])
+            if v_ is False:
+                bad.append(show(strip(e))[:100])
+            elif v_ is None:
+                unknown.append(show(strip(e))[:100])
         if bad:
             return False, "element(s) not produced by <Array as Clone>::clone: %s" % "; ".join(bad), elems
+        if unknown:
+            return None, "element(s) built by an unrecognised construct: %s" % "; ".join(unknown), elems
         return True, "vec![%s]" % ", ".join(show(e)[:40] for e in elems), elems
     if arg.get("k") == "Call" and callee(arg) == "core::iter::traits::iterator::Iterator::collect":
         src = strip(arg["args"][0])
